@@ -52,6 +52,7 @@ type Case struct {
 	Eager    bool       `json:"eager_default_order"`
 	Choices  []int      `json:"choices"`
 	Schedule []string   `json:"schedule,omitempty"`
+	Racing   bool       `json:"history_concurrent_with_cache_creation,omitempty"`
 }
 
 var scratch string
@@ -130,7 +131,10 @@ func same(a, b dirmodel.Observation, dirSet map[string]bool) (bool, string, stri
 	return true, "", ""
 }
 
-func scenario(h []fsops.Op, eager bool, preempt int) *explore.Scenario {
+// scenario: the cache is created, then the history happens (racing: the history is performed by
+// a second thread while NewCache runs: a change landing anywhere between the initial scan of a
+// directory and the registration of its watch), then quiescence, queries and probes.
+func scenario(h []fsops.Op, eager bool, preempt int, racing bool) *explore.Scenario {
 	sc := &explore.Scenario{Name: fmt.Sprint(h), Eager: eager, Bounds: explore.Bounds{Preemptions: preempt}, MaxSteps: 50000}
 	sc.New = func() *explore.Instance {
 		root := filepath.Join(scratch, "x")
@@ -142,12 +146,31 @@ func scenario(h []fsops.Op, eager bool, preempt int) *explore.Scenario {
 		var probed, probeSeen []string
 		in := &explore.Instance{Names: []string{"main"}}
 		in.Threads = []func(){func() {
-			cache, _ := cdi.NewCache(cdi.WithSpecDirs(paths...))
-			for i, op := range h {
-				if err := fsops.Apply(modelFS{}, root, op, i); err != nil {
-					applyErr = fmt.Errorf("%s: %w", op, err)
-					return
+			history := func() {
+				for i, op := range h {
+					if err := fsops.Apply(modelFS{}, root, op, i); err != nil {
+						applyErr = fmt.Errorf("%s: %w", op, err)
+						return
+					}
 				}
+			}
+			var cache *cdi.Cache
+			if racing {
+				changerDone := false
+				sched.Go("changer", false, 0, func() {
+					history()
+					sched.Touch(&changerDone)
+					changerDone = true
+				})
+				cache, _ = cdi.NewCache(cdi.WithSpecDirs(paths...))
+				sched.Block("join changer", func() bool { return changerDone })
+				sched.Touch(&changerDone)
+			} else {
+				cache, _ = cdi.NewCache(cdi.WithSpecDirs(paths...))
+				history()
+			}
+			if applyErr != nil {
+				return
 			}
 			sched.Quiesce("history done")
 			obs1 = dirmodel.Observe(cache)
@@ -279,6 +302,9 @@ type workerOut struct {
 	Capped     bool                `json:"capped"`
 	Infra      string              `json:"infra"`
 	Events     []string            `json:"model_events"`
+	Racing     bool                `json:"racing"`
+	Pruned     int64               `json:"pruned"`
+	States     int64               `json:"states"`
 }
 
 func realHelper(mode string, in any, out any) error {
@@ -313,6 +339,10 @@ func main() {
 			preempt, _ := strconv.Atoi(os.Args[i+3])
 			dl, _ := strconv.ParseInt(os.Args[i+4], 10, 64)
 			hs := histories(depth)
+			raceLen := 1
+			if depth >= 3 {
+				raceLen = 2
+			}
 			enc := json.NewEncoder(os.Stdout)
 			for k, h := range hs {
 				if k%wn != wi {
@@ -320,8 +350,17 @@ func main() {
 				}
 				ev := modelEvents(h)
 				for _, eager := range []bool{true, false} {
-					res := explore.Explore(scenario(h, eager, preempt), time.Unix(dl, 0))
-					_ = enc.Encode(workerOut{Index: k, Eager: eager, Executions: res.Executions, Points: res.Points, Outcomes: res.Outcomes, Violations: res.Violations, Capped: res.Capped, Infra: res.Infra, Events: ev})
+					res := explore.Explore(scenario(h, eager, preempt, false), time.Unix(dl, 0))
+					_ = enc.Encode(workerOut{Index: k, Eager: eager, Executions: res.Executions, Points: res.Points, Outcomes: res.Outcomes, Violations: res.Violations, Capped: res.Capped, Infra: res.Infra, Events: ev, Pruned: res.Pruned, States: res.States})
+					if len(h) <= raceLen {
+						// the same history concurrent with the creation of the cache
+						p := preempt
+						if p < 1 {
+							p = 1
+						}
+						res := explore.Explore(scenario(h, eager, p, true), time.Unix(dl, 0))
+						_ = enc.Encode(workerOut{Index: k, Eager: eager, Racing: true, Executions: res.Executions, Points: res.Points, Outcomes: res.Outcomes, Violations: res.Violations, Capped: res.Capped, Infra: res.Infra, Events: ev, Pruned: res.Pruned, States: res.States})
+					}
 				}
 			}
 			os.RemoveAll(scratch)
@@ -343,7 +382,7 @@ func main() {
 	if r.Replay != "" {
 		var c Case
 		r.LoadReplay(&c)
-		sc := scenario(c.History, c.Eager, 99)
+		sc := scenario(c.History, c.Eager, 99, c.Racing)
 		_, _, v1 := explore.RunOnce(sc, c.Choices, true)
 		_, _, v2 := explore.RunOnce(sc, c.Choices, true)
 		os.RemoveAll(scratch)
@@ -402,6 +441,7 @@ func main() {
 		v     explore.Violation
 		h     []fsops.Op
 		eager bool
+		race  bool
 	}
 	var violations []found
 	passing := map[int]bool{}
@@ -427,7 +467,7 @@ func main() {
 			passing[o.Index] = false
 		}
 		for _, v := range o.Violations {
-			violations = append(violations, found{v, hs[o.Index], o.Eager})
+			violations = append(violations, found{v, hs[o.Index], o.Eager, o.Racing})
 		}
 	}
 	// ---- conformance of the virtual fsnotify with the real one, on every history
@@ -491,7 +531,10 @@ func main() {
 			}
 		}
 		note := "needs a specific pacing (schedule in the replay file)"
-		if deviations == 0 {
+		if f.race {
+			note = "the history runs while the cache is being created (schedule in the replay file)"
+		}
+		if deviations == 0 && !f.race {
 			var ro struct {
 				Converged []bool   `json:"converged"`
 				Detail    []string `json:"detail"`
@@ -507,7 +550,7 @@ func main() {
 			confirmed++
 			note = "confirmed on the unmodified build with the real fsnotify: not converged after 3 s (" + ro.Detail[0] + ")"
 		}
-		r.Fail(&hx.Failure{Sig: f.v.Sig, Msg: f.v.Msg + " — " + note, Case: Case{History: f.h, Eager: f.eager, Choices: f.v.Choices, Schedule: f.v.Schedule}, Rank: int64(len(f.h)*1000 + len(f.v.Choices))})
+		r.Fail(&hx.Failure{Sig: f.v.Sig, Msg: f.v.Msg + " — " + note, Case: Case{History: f.h, Eager: f.eager, Choices: f.v.Choices, Schedule: f.v.Schedule, Racing: f.race}, Rank: int64(len(f.h)*1000 + len(f.v.Choices))})
 	}
 	if unconfirmed > 0 {
 		die(2, "INFRA: violations not confirmed by the real replay:", unconfirmed)
